@@ -434,6 +434,18 @@ def broyden_update_jac(B, dx, df, Binv=None):
         return B_new
 
 
+def residual_consistent_with_root(Fn, Fn_initial, x, J, tol):
+    """Guards the step-size convergence criterion of the nonlinear solvers.
+
+    A small update also occurs at stagnation points of singular systems, when a trust region collapses, or after
+    the iterates ran off along a null space. The update only signals convergence when the residual norm `Fn` is what
+    a point that close to a root would have (given the jacobian `J`) and has dropped relative to the residual of
+    the initial guess.
+    """
+    xtol = tol * (x.shape[0] + D.ar_numpy.linalg.norm(x))
+    return bool(Fn <= xtol * D.ar_numpy.maximum(1.0, D.ar_numpy.linalg.norm(J)) and Fn <= tol * (J.shape[0] + Fn_initial))
+
+
 def newtontrustregion(f, x0, jac=None, tol=None, verbose=False, maxiter=200, jac_update_rate=20, initial_trust_region=None, var_bounds=None):
     x0 = D.ar_numpy.asarray(x0)
     if tol is None:
@@ -516,6 +528,7 @@ def newtontrustregion(f, x0, jac=None, tol=None, verbose=False, maxiter=200, jac
     F1, Jf1 = D.ar_numpy.copy(F0), D.ar_numpy.copy(Jf0)
     Fn0 = D.ar_numpy.linalg.norm(F1).reshape(tuple())
     Fn1 = D.ar_numpy.copy(Fn0)
+    Fn_initial = D.ar_numpy.copy(Fn0)
     dx = D.ar_numpy.zeros_like(x)
     dxn = D.ar_numpy.linalg.norm(dx).reshape(tuple())
     I = D.ar_numpy.diag(D.ar_numpy.ones_like(D.ar_numpy.diag(Jf1)))
@@ -576,13 +589,14 @@ def newtontrustregion(f, x0, jac=None, tol=None, verbose=False, maxiter=200, jac
                 trust_region *= 0.8 * 0.5 / tr_ratio
             elif tr_ratio < 0.25:
                 trust_region *= 0.25 / tr_ratio
-        if iteration % jac_update_rate == 0 or no_progress:
+        xtol = tol * (xdim + D.ar_numpy.linalg.norm(x))
+        small_step = dxn <= 0.8 * xtol
+        if iteration % jac_update_rate == 0 or no_progress or small_step:
             Jf0, Jf1 = Jf0, fun_jac(x)
             Jinv = D.ar_numpy.astype(D.ar_numpy.linalg.inv(D.ar_numpy.astype(Jf1, f64_type)), Jf1.dtype)
         else:
             Jf0, (Jf1, Jinv) = Jf1, broyden_update_jac(Jf1, dx, F1 - F0, Jinv)
-        xtol = tol * (xdim + D.ar_numpy.linalg.norm(x))
-        success = dxn <= 0.8 * xtol
+        success = small_step and residual_consistent_with_root(Fn1, Fn_initial, x, Jf1, tol)
         success = success or Fn1 < 0.8 * tol
         convergence_failure = not D.ar_numpy.isfinite(dxn) or fail_iter > 2
         if success or convergence_failure:
@@ -653,6 +667,7 @@ def hybrj(f, x0, jac, tol=None, verbose=False, maxiter=200, var_bounds=None):
     
     F0 = fun(x)
     F1 = D.ar_numpy.copy(F0)
+    Fn_initial = D.ar_numpy.linalg.norm(F0)
     J0 = fun_jac(x)
     dx = D.ar_numpy.zeros_like(x)
     dxn = D.ar_numpy.linalg.norm(dx)
@@ -696,22 +711,28 @@ def hybrj(f, x0, jac, tol=None, verbose=False, maxiter=200, var_bounds=None):
         y_is = __f - F0
         gain = 2.0 * D.ar_numpy.linalg.norm(y_is) / (D.ar_numpy.linalg.norm(F0) - D.ar_numpy.linalg.norm(F0 + y_ex))
         no_progress = not (D.ar_numpy.max(gain) > 0)
+        small_step = False
         if not no_progress:
             x = __x
             F1 = F0
             F0 = __f
-            success = D.ar_numpy.linalg.norm(F0) < tol or dxn <= xtol
-        if no_progress:
+            success = D.ar_numpy.linalg.norm(F0) < tol
+            small_step = not success and dxn <= xtol
+        if no_progress or small_step:
             J0 = fun_jac(x)
         else:
             J0 = broyden_update_jac(J0, dx, y_is)
+        if small_step:
+            success = residual_consistent_with_root(D.ar_numpy.linalg.norm(F0), Fn_initial, x, J0, tol)
         if D.ar_numpy.any(~D.ar_numpy.isfinite(dx)):
             raise ValueError("Encountered nan!")
         if D.ar_numpy.max(gain) > 0.75:
             trust_region = D.ar_numpy.maximum(trust_region, 3 *  D.ar_numpy.linalg.norm(dx_gn))
         elif D.ar_numpy.max(gain) < 0.25:
             trust_region = trust_region * 0.5
-            success = success or trust_region <= xtol
+            if not success and trust_region <= xtol:
+                # the trust region collapsed without reaching a root: report failure
+                break
         if success:
             if verbose:
                 Fn0 = D.ar_numpy.linalg.norm(F0)
@@ -814,7 +835,9 @@ def nonlinear_roots(f, x0, jac=None, tol=None, verbose=False, maxiter=200, use_s
         init_iter = res.nfev + res.njev
         x = D.ar_numpy.reshape(res.x, (xdim, 1))
         F = D.ar_numpy.reshape(res.fun, fshape)
-        success = res.success or ("no futher improvement" in res.message and D.ar_numpy.linalg.norm(res.fun) <= D.tol_epsilon(x0.dtype))
+        # MINPACK only tests the step size
+        success = res.success and residual_consistent_with_root(D.ar_numpy.linalg.norm(res.fun), D.ar_numpy.linalg.norm(__f0), x, fun_jac(x), tol)
+        success = success or ("no futher improvement" in res.message and D.ar_numpy.linalg.norm(res.fun) <= D.tol_epsilon(x0.dtype))
         if success:
             x = D.ar_numpy.reshape(x, xshape)
             if var_bounds is not None:
